@@ -845,6 +845,15 @@ class Interp:
             return self.instantiate(f.qual, args, kwargs)
         if isinstance(f, ExcClass):
             return Obj('<exc>', {'cls': f, 'args': tuple(args)})
+        if isinstance(f, Obj) and f.cls == '<namedtuple-class>':
+            names = f.fields['fields']
+            names = names.replace(',', ' ').split() if isinstance(names, str) else list(names)
+            vals = dict(zip(names, args))
+            vals.update(kwargs)
+            if set(vals) != set(names):
+                raise self.p.pyexc('TypeError')
+            o = Obj('<nt>', {nm: vals[nm] for nm in names}, label=f.fields['name'])
+            return o
         if isinstance(f, Obj):
             ci = self.class_of(f)
             if ci is not None:
